@@ -151,6 +151,7 @@ fn exec_cb(o: &str) -> bool {
 }
 
 pub fn check(hdr: &str, lines: &[String], trace: &[(String, Vec<String>)], mon: &mut dyn Write, stats: &mut Stats) {
+    let d3_panic_op = crate::mon_outstation_db::check(hdr, lines, trace, mon);
     let mut cfg = CaseCfg::default();
     // resolved `cfm` ops need the last seqs: recompute like the engine does
     let mut last_sol: u8 = 0;
@@ -260,7 +261,7 @@ pub fn check(hdr: &str, lines: &[String], trace: &[(String, Vec<String>)], mon: 
             if outs.iter().any(|o| o == "panic") {
                 let is_operate = frag.as_ref().map(|f| f.2.len() >= 2 && f.2[1] == 4).unwrap_or(false);
                 let objs_len = frag.as_ref().map(|f| f.2.len().saturating_sub(2)).unwrap_or(0);
-                let cause = if is_operate && objs_len + 4 > cfg.sol { "D1" } else { "" };
+                let cause = if is_operate && objs_len + 4 > cfg.sol { "D1" } else if d3_panic_op == Some(k) { "D3" } else { "" };
                 fail(mon, hdr, "no_panic", cause, op);
             }
             continue;
